@@ -65,9 +65,11 @@ Corollary reset_history_current fixed keepcat ops o :
   run fixed keepcat o ops = run_spec fixed (tb_df (o_tab o)) (tb_sidecar (o_tab o)) ops.
 Proof. intros H. apply history_current. right. exact H. Qed.
 
-(* The code as it is keeps the 'category' dtype on its frame: after an assembly a cell of a
-   categorical column cannot be set to a value the column did not hold -- a fresh object
-   accepts the same edit.  (ex_st: column 1 is the categorical column "c" holding g, n/a, g.) *)
+(* Record of the defect C06-F7 repaired by fix commit 220dc27 (keepcat = true = behaviour
+   before it): the 'category' dtype stayed on the object's frame, so after an assembly a cell
+   of a categorical column could not be set to a value the column did not hold -- a fresh
+   object accepted the same edit.  With keepcat = false (the code as it is) the edit is
+   accepted.  (ex_st: column 1 is the categorical column "c" holding g, n/a, g.) *)
 Definition ops_edit_after : list op := [OAssemble []; OSetCell 1 1 [122]%N; OAssemble []].
 Definition ops_edit_fresh : list op := [OSetCell 1 1 [122]%N; OAssemble []].
 Definition ex_obj : obj := {| o_tab := ex_st; o_cats := [] |}.
@@ -79,7 +81,9 @@ Theorem set_cell_after_assembly_refuted :
   = run_spec true (tb_df ex_st) (tb_sidecar ex_st) ops_edit_after.
 Proof. repeat split; vm_compute; reflexivity. Qed.
 
-(* non-vacuity: switching the sidecar changes which column is spliced *)
+(* non-vacuity, in the mode of the current /repo (fixed = true, keepcat = false): switching
+   the sidecar changes which column is spliced; an edit between assemblies is seen *)
+(* the same switch under the pre-220dc27 mode (answers do not depend on keepcat) *)
 Definition ex_sidecar_b : sidecar :=
   [ ([99]%N, JDict [(hed_key, JDict [([103]%N, JStr [82; 44; 32; 123; 118; 125]%N)])]);   (* c: {g: "R, {v}"} *)
     ([118]%N, JDict [(hed_key, JStr [76; 47; 35]%N)]) ].                                   (* v: L/# *)
@@ -91,3 +95,17 @@ Example ex_switch :
       RNone;
       RRows [ [66; 44; 32; 40; 82; 44; 32; 76; 47; 120; 41]%N; [40; 76; 47; 121; 41]%N; [] ] ].
 Proof. vm_compute. reflexivity. Qed.
+
+Example ex_switch_current :
+  run true false ex_obj [OAssemble []; OReset ex_sidecar_b; OAssemble []; OSetCell 1 1 [103]%N;
+                         OAssemble []; OReset ex_sidecar; OAssemble []]
+  = [ RRows [ [66; 44; 32; 40; 82; 44; 32; 76; 47; 120; 41]%N; [40; 76; 47; 121; 41]%N; [] ];
+      RNone;
+      RRows [ [66; 44; 32; 82; 44; 32; 76; 47; 120]%N; []; [82]%N ];
+      RNone;
+      RRows [ [66; 44; 32; 82; 44; 32; 76; 47; 120]%N; [82; 44; 32; 76; 47; 121]%N; [82]%N ];
+      RNone;
+      RRows [ [66; 44; 32; 40; 82; 44; 32; 76; 47; 120; 41]%N;
+              [40; 82; 44; 32; 76; 47; 121; 41]%N; [] ] ].
+Proof. vm_compute. reflexivity. Qed.
+
